@@ -93,6 +93,8 @@ fn classify(e: &anda_db::error::DBError) -> CRes {
 
 struct Config {
     cfg: Cfg,
+    /// also park tasks AFTER a backend read returned (response in hand, not yet acted upon)
+    post_reads: bool,
     n_initial: u64,
     ops: Vec<COp>,
     label: String,
@@ -140,7 +142,10 @@ fn gen_config(rng: &mut Rng, stripe: bool) -> Config {
     }
     let mut kinds: Vec<&str> = ops.iter().map(|o| o.kind()).collect();
     kinds.sort_unstable();
-    Config { cfg, n_initial, label: format!("{}{}", if stripe { "stripe:" } else { "" }, kinds.join("+")), ops }
+    // the read-then-act window (cache fill after a fetch, read-modify-write) needs a suspension
+    // point between a read's response and its consumer; always on when a get is in the mix
+    let post_reads = ops.iter().any(|o| matches!(o, COp::Get(_))) || rng.chance(1, 3);
+    Config { cfg, post_reads, n_initial, label: format!("{}{}{}", if stripe { "stripe:" } else { "" }, if post_reads { "postread:" } else { "" }, kinds.join("+")), ops }
 }
 
 struct Outcome {
@@ -180,6 +185,7 @@ async fn run_schedule(c: &Config, chooser: &mut dyn Chooser, st: &mut Stats) -> 
     let _ = d.step(&Op::Flush, st).await;
     let initial = d.model.clone();
     store.set_gate(true);
+    store.set_gate_after_reads(c.post_reads);
     let coll = d.coll.clone();
     let mut ex: ManualExec<'_, CRes> = ManualExec::new();
     for op in &c.ops {
@@ -228,19 +234,23 @@ async fn run_schedule(c: &Config, chooser: &mut dyn Chooser, st: &mut Stats) -> 
     let mut snaps: Vec<(usize, Arc<object_store::memory::InMemory>)> = vec![];
     let ops = &c.ops;
     let store2 = store.clone();
+    let post_reads = c.post_reads;
     let r = ex.run(chooser, 6000, |ex, i, done| {
         if done {
             ret[i] = ex.trace.len() - 1;
             if matches!(ops[i], COp::Flush) && matches!(ex.result(i), Some(CRes::Done)) {
                 // "pull the plug" at the instant the flush returned
                 store2.set_gate(false);
+                store2.set_gate_after_reads(false);
                 let snap = drive(store2.snapshot());
                 store2.set_gate(true);
+                store2.set_gate_after_reads(post_reads);
                 snaps.push((ex.trace.len() - 1, snap));
             }
         }
     });
     store.set_gate(false);
+    store.set_gate_after_reads(false);
     let trace = ex.trace.clone();
     match r {
         Ok(()) => {}
@@ -526,6 +536,9 @@ fn case(case: u64, rng: &mut Rng, st: &mut Stats, budget: u64) {
             }
         }
         st.count(&format!("config:{}", if stripe { "stripe" } else { "plain" }));
+        if c.post_reads {
+            st.count("config:post_read_gate");
+        }
         st.set("configurations", vcore::fnv_str(&c.label));
         st.distinct(vcore::fnv_str(&format!("{:?}", c.ops.iter().map(|o| o.brief()).collect::<Vec<_>>())));
         for o in &c.ops {
@@ -659,6 +672,7 @@ fn main() {
     run.floor("oracle_overlapping_reads", 200);
     run.floor("oracle_flush_snapshots", 200);
     run.floor("config:stripe", 5);
+    run.floor("config:post_read_gate", 10);
     run.floor_set("configurations", 30);
     for k in ["add", "update", "remove", "get", "flush", "save_extension", "compact"] {
         run.floor(&format!("cop:{k}"), 10);
